@@ -100,6 +100,30 @@ func RewriteFile(src []byte, filename string, shimNames map[string]bool) ([]byte
 	n := 0
 	astutil.Apply(f, func(c *astutil.Cursor) bool {
 		switch x := c.Node().(type) {
+		case *ast.Field:
+			// Embedded field `os.File` / `*os.File`: the field name is the type name, and code may
+			// refer to it (f.File), so use the alias vshim.<Sel> (= vshim.<Prefix><Sel>) to keep it.
+			if len(x.Names) == 0 {
+				t := x.Type
+				star, isStar := t.(*ast.StarExpr)
+				if isStar {
+					t = star.X
+				}
+				if se, ok := t.(*ast.SelectorExpr); ok {
+					if id, ok := se.X.(*ast.Ident); ok && id.Obj == nil {
+						if pfx, ok := prefixOf[local[id.Name]]; ok && shimNames[pfx+se.Sel.Name] && shimNames[se.Sel.Name] {
+							n++
+							var nt ast.Expr = &ast.SelectorExpr{X: ast.NewIdent("vshim"), Sel: ast.NewIdent(se.Sel.Name)}
+							if isStar {
+								nt = &ast.StarExpr{X: nt}
+							}
+							x.Type = nt
+							return false
+						}
+					}
+				}
+			}
+			return true
 		case *ast.SelectorExpr:
 			id, ok := x.X.(*ast.Ident)
 			if !ok || id.Obj != nil {
